@@ -81,6 +81,8 @@ COMMON_TAIL = [
     {"load": HAND},
     {"save": None},
     {"save": SNAP},
+    # several keys in one request: load, then set, then reset, then save
+    {"reset": ["all"], "save": None},
 ]
 
 
@@ -339,6 +341,37 @@ def trees() -> Dict[str, dict]:
             _set(ALW="own"),
             {"reset": ["EN"]},
             {"reset": ["ST", "HX"]},
+        ]
+        + COMMON_TAIL,
+    }
+    # ranges whose bounds are other options (both bounds, int and hex)
+    T["symrange"] = {
+        "files": kgen.render(
+            Program(
+                children=[
+                    Cfg("FLOOR", "int", prompt="floor", defaults=[(L("0"), None)]),
+                    Cfg("LIMIT", "int", prompt="limit", defaults=[(L("100"), None)]),
+                    Cfg("VALUE", "int", prompt="value", ranges=[(S("FLOOR"), S("LIMIT"), None)], defaults=[(L("5"), None)]),
+                    Cfg("HLIM", "hex", prompt="hlim", defaults=[(L("0xff"), None)]),
+                    Cfg("HV", "hex", prompt="hv", ranges=[(L("0x0"), S("HLIM"), None)], defaults=[(L("0x10"), None)]),
+                ]
+            )
+        ),
+        "sdk0": "",
+        "hand": "CONFIG_LIMIT=20\nCONFIG_VALUE=15\n",
+        "alphabet": [
+            _set(VALUE=50),
+            _set(VALUE=3),
+            _set(LIMIT=10),
+            _set(LIMIT=200),
+            _set(FLOOR=20),
+            _set(HV=128),
+            _set(HLIM=32),
+            _setp(("VALUE", 150), ("LIMIT", 200)),
+            _set(VALUE=500),
+            {"reset": ["LIMIT"]},
+            {"reset": ["VALUE", "FLOOR"]},
+            {"set": {"VALUE": 7}, "reset": ["LIMIT"], "save": None},
         ]
         + COMMON_TAIL,
     }
@@ -644,6 +677,21 @@ class Explorer:
             _RESTART[skey] = restart
         self.r.count("restart_comparisons")
         out.update(restart)
+        # (b') "what the client sees is what `save` writes": when the request just handled carried a successful save,
+        # a fresh server started on the file THAT request wrote must report the state the reply left the client with
+        if h:
+            lastq = json.loads(h[-1])
+            rep_last, _ = server.parse_reply(st.run.lines[-1]) if st.run.lines else (None, None)
+            if "save" in lastq and rep_last is not None and "error" not in rep_last:
+                written = st.run.files.get(os.path.basename(st.lastfile))
+                if written is not None:
+                    got = self.fresh_state(written)
+                    self.r.count("saved_file_comparisons")
+                    if got[0] != "ok":
+                        out[("restart", "-", "-", "fresh_server_failed_on_saved_file")] = f"fresh server on the file the request saved: {got[1:]!r}"[:300]
+                    else:
+                        for key, msg in compare("saved_file_differs", live, got[1], 3).items():
+                            out[key] = msg
         # (c) what the server announces must not depend on memoised values: recompute after discarding every cache
         # (last use of this history's live object; children are replayed from scratch)
         st.run.kconfig._invalidate_all()
